@@ -1055,6 +1055,7 @@ class Analyzer:
                     if i == n - 1:
                         results.append((s2, t))
                         continue
+                    self.event("cond", ve, s2, test=t, stmt=e)
                     # short-circuit exit: value is t
                     sx = assume(s2, t, not is_and)
                     if sx is not None:
